@@ -1025,3 +1025,86 @@ Lemma writer_write_flush_solo : forall p junk hdr key,
   solo_transcript (path_writer_write_flush p junk hdr key false) = Some [hdr; sub p 0 (length p)] /\
   solo_transcript (path_writer_write_flush p junk hdr key true) = Some [hdr; sub (xor_key key p) 0 (length p)].
 Proof. split; reflexivity. Qed.
+
+(* ---------- the same, stated from the initial state (for props/) ---------- *)
+Lemma reach_result_owned : forall progs sched st i v,
+  (forall j, disciplined (progs j) = true) -> LTS.run step (ginit progs) sched st ->
+  In v (s_out (g_sess st i)) ->
+  match v with
+  | Own _ => True
+  | View l _ _ => ~ In l (g_free st) /\ l < g_next st /\
+                  exists r, holds st i r l /\ s_ts (g_sess st i) r = THeld KFresh true true /\
+                            forall j r', holds st j r' l -> j = i /\ r' = r
+  end.
+Proof. intros progs sched st i v Hd Hr. apply result_owned. eapply reachable_Inv; eauto. Qed.
+
+Lemma reach_stable : forall progs sched st later st' i v,
+  (forall j, disciplined (progs j) = true) -> LTS.run step (ginit progs) sched st ->
+  LTS.run step st later st' -> In v (s_out (g_sess st i)) ->
+  read_val (g_heap st') v = read_val (g_heap st) v.
+Proof.
+  intros progs sched st later st' i v Hd Hr Hl. apply stable with (sched := later); auto.
+  eapply reachable_Inv; eauto.
+Qed.
+
+Lemma reach_transcript_stable : forall progs sched st later st' i,
+  (forall j, disciplined (progs j) = true) -> LTS.run step (ginit progs) sched st ->
+  LTS.run step st later st' -> exists ext, transcript st' i = transcript st i ++ ext.
+Proof.
+  intros progs sched st later st' i Hd Hr Hl. apply transcript_stable with (sched := later); auto.
+  eapply reachable_Inv; eauto.
+Qed.
+
+Lemma reach_caller_intact : forall progs sched st i r b l,
+  (forall j, disciplined (progs j) = true) -> LTS.run step (ginit progs) sched st ->
+  s_ts (g_sess st i) r = TCaller b -> s_regs (g_sess st i) r = Some l -> g_heap st l = b.
+Proof. intros progs sched st i r b l Hd Hr. apply caller_intact. eapply reachable_Inv; eauto. Qed.
+
+Lemma destination_bytes : forall p junk hdr key,
+  solo_transcript (path_write_client p hdr key) = Some [hdr; sub (xor_key key p) 0 (length p)] /\
+  solo_transcript (path_writer_write_flush p junk hdr key false) = Some [hdr; sub p 0 (length p)] /\
+  solo_transcript (path_writer_write_flush p junk hdr key true) = Some [hdr; sub (xor_key key p) 0 (length p)].
+Proof. intros p junk hdr key. exact (conj (write_client_solo p hdr key) (writer_write_flush_solo p junk hdr key)). Qed.
+
+Lemma reach_ownership_inv : forall progs sched st,
+  (forall j, disciplined (progs j) = true) -> LTS.run step (ginit progs) sched st ->
+  NoDup (g_free st) /\
+  (forall l, In l (g_free st) -> l < g_next st) /\
+  (forall i r, live (s_ts (g_sess st i) r) = true ->
+     exists l, s_regs (g_sess st i) r = Some l /\ l < g_next st /\ ~ In l (g_free st)) /\
+  (forall i r j r' l, holds st i r l -> holds st j r' l -> i = j /\ r = r').
+Proof.
+  intros progs sched st Hd Hr. pose proof (reachable_Inv _ _ _ Hd Hr) as HI.
+  split; [apply (inv_nodup _ HI)|]. split; [apply (inv_free_lt _ HI)|].
+  split; [apply (inv_live _ HI)|apply (inv_inj _ HI)].
+Qed.
+
+Lemma reach_no_conflict : forall progs sched st i j l,
+  (forall k, disciplined (progs k) = true) -> LTS.run step (ginit progs) sched st ->
+  i <> j -> In l (access st i) -> In l (access st j) -> False.
+Proof. intros progs sched st i j l Hd Hr. apply no_conflict. eapply reachable_Inv; eauto. Qed.
+
+Lemma reach_no_access_to_pooled : forall progs sched st i l,
+  (forall k, disciplined (progs k) = true) -> LTS.run step (ginit progs) sched st ->
+  In l (access st i) -> ~ In l (g_free st).
+Proof. intros progs sched st i l Hd Hr. apply no_access_to_pooled. eapply reachable_Inv; eauto. Qed.
+
+(* interference IS expressible: a session that reads a buffer after Put (rejected by the
+   discipline) observes another session's bytes *)
+Definition uaf_prog : list op := [OGet 0; OFill 0 [1%N]; OPut 0; OOutCopy 0 0 1].
+Definition other_prog : list op := [OGet 0; OFill 0 [9%N]].
+Definition uaf_progs (i : sid) : list op := match i with 0 => uaf_prog | 1 => other_prog | _ => [] end.
+Definition uaf_sched : list label := [(0, None); (0, None); (0, None); (1, Some 0); (1, None); (0, None)].
+
+Lemma use_after_put_interferes :
+  disciplined uaf_prog = false /\
+  solo_transcript uaf_prog = Some [[1%N]] /\
+  exists st, grun (ginit uaf_progs) uaf_sched = Some st /\ transcript st 0 = [[9%N]].
+Proof. split; [reflexivity|]. split; [reflexivity|]. eexists. split; vm_compute; reflexivity. Qed.
+
+Lemma grun_run : forall sched st st', grun st sched = Some st' -> LTS.run step st sched st'.
+Proof.
+  induction sched as [|l tr IH]; intros st st' H; simpl in H.
+  - inversion H; subst; constructor.
+  - destruct (step st l) as [s1|] eqn:Hs; [|discriminate]. econstructor; eauto.
+Qed.
